@@ -457,7 +457,7 @@ class C05(Prop):
                 "NV.C05.tie_context_fields_saved", "NV.C05.tie_every_field_saved_is_restored", "NV.C05.tie_context_globals",
                 "NV.C05.tie_frame_registers", "NV.C05.tie_frame_saved_is_restored", "NV.C05.tie_all_globals_classified",
                 "NV.C05.tie_classes_match_source", "NV.C05.tie_command_giver_stack", "NV.C05.tie_callback_handlers",
-                "NV.C05.tie_backend_shapes", "NV.C05.tie_catch_value_order", "NV.C05.tie_handler_flag", "NV.C05.raise_sets_catch_value_after_handler",
+                "NV.C05.tie_backend_shapes", "NV.C05.tie_catch_value_order", "NV.C05.tie_handler_flag", "NV.C05.tie_handler_limit_state", "NV.C05.tie_hook_globals_apart", "NV.C05.raise_sets_catch_value_after_handler",
                 "NV.C05.driver_restores", "NV.C05.model_satisfies_spec_driver",
                 "NV.C05.backend_cycle_restores", "NV.C05.model_satisfies_spec_backend", "NV.C05.restoreContext_verb",
                 "NV.C05.saveContext_verb", "NV.C05.judgeObs_nil_of_core", "NV.C05.hbOffStep_spec", "NV.C05.raiseInner_uncaught_switches_heart_beat_off", "NV.C05.hbOffStep_same", "NV.C05.verbFinish_good", "NV.C05.hbFinish_good",
@@ -664,8 +664,26 @@ class C05(Prop):
         out.append("/-- push_control_stack: (frame field, what is stored) -/\ndef frameSaved : List (String × String) := %s" % pairs(fsaved))
         out.append("/-- pop_control_stack: (global variable, frame field it is restored from) -/\ndef frameRestored : List (String × String) := %s" % pairs(frest))
         # (3) every global variable of the interpreter core (object files of the current build: data and bss symbols)
-        globs = []
+        def unguarded_text(path):
+            """the source text outside `#ifdef NEOLITH_VERIF` regions (an `#else` part of such a region counts as outside)"""
+            keep, stack = [], []      # stack entries: True = this level is a NEOLITH_VERIF region that is active
+            for line in re.sub(r"/\*.*?\*/", lambda mm: "\n" * mm.group(0).count("\n"), open(path, errors="replace").read(), flags=re.S).splitlines():
+                st = line.strip()
+                if re.match(r"#\s*if", st):
+                    stack.append(bool(re.match(r"#\s*(ifdef\s+NEOLITH_VERIF\b|if\s+defined\s*\(?\s*NEOLITH_VERIF\b)", st)))
+                    continue
+                if re.match(r"#\s*else", st) and stack:
+                    stack[-1] = False
+                    continue
+                if re.match(r"#\s*endif", st) and stack:
+                    stack.pop()
+                    continue
+                if not any(stack):
+                    keep.append(line)
+            return "\n".join(keep)
+        globs, hooks = [], []
         for o in self.CORE_OBJECTS:
+            outside = unguarded_text(os.path.join(E.REPO, "src/%s.c" % o))
             path = os.path.join(bdir, "src/CMakeFiles/stem.dir/%s.c.o" % o)
             try:
                 txt = subprocess.run(["nm", path], capture_output=True, text=True).stdout
@@ -674,10 +692,18 @@ class C05(Prop):
             need("globals", txt, "nm " + path)
             for line in txt.splitlines():
                 f = line.split()
-                if len(f) == 3 and f[1] in "BbDdC" and re.match(r"^[A-Za-z]\w*$", f[2]) and not f[2].startswith(("verif_", "__")):
-                    globs.append(f[2])
-        out.append("/-- global variables defined in %s (nm of the build; function-local statics and verif_ hooks left out) -/\n"
+                if len(f) == 3 and f[1] in "BbDdC" and re.match(r"^[A-Za-z]\w*$", f[2]) and not f[2].startswith("__"):
+                    # a variable that is only mentioned inside `#ifdef NEOLITH_VERIF` regions of its file belongs to a
+                    # verification hook: it does not exist in the driver proper and cannot influence it
+                    if f[2].startswith("verif_") or not re.search(r"\b%s\b" % re.escape(f[2]), outside):
+                        hooks.append(f[2])
+                    else:
+                        globs.append(f[2])
+        out.append("/-- global variables defined in %s (nm of the build; function-local statics left out; variables of verification "
+                   "hooks, i.e. those mentioned only inside `#ifdef NEOLITH_VERIF` regions, are listed separately) -/\n"
                    "def coreGlobals : List String := %s" % (", ".join(x + ".c" for x in self.CORE_OBJECTS), lst(sorted(set(globs)))))
+        out.append("/-- variables of verification hooks in the same files (recognised automatically, not evaluation state) -/\n"
+                   "def hookGlobals : List String := %s" % lst(sorted(set(hooks))))
         # (4) the command_giver save stack: between save_command_giver and restore_command_giver no call that can longjmp
         unsafe = []
         users = 0
@@ -721,11 +747,20 @@ class C05(Prop):
         # (5c) error_handler: in_mudlib_error_handler is cleared for an error raised inside the master's handler only when that
         #      error is delivered to the context that was current at the handler's entry (the handler is abandoned)
         clears = [mm.start() for mm in re.finditer(r"in_mudlib_error_handler\s*=\s*0\s*;", eh)]
-        guarded = [c for c in clears if re.search(r"if\s*\(current_error_context\s*==\s*mudlib_error_handler_context\)\s*$", eh[:c].rstrip())]
+        guard_re = r"if\s*\(current_error_context\s*==\s*mudlib_error_handler_context\)\s*\{?\s*$"
+        guarded = [c for c in clears if re.search(guard_re, eh[:c].rstrip())]
         entries = len(re.findall(r"mudlib_error_handler_context\s*=\s*current_error_context\s*;\s*(?:in_error\s*=\s*0\s*;\s*)?mudlib_error_handler\s*\(", eh))
         out.append("/-- error_handler: the two `in_mudlib_error_handler = 0` of the 'error inside the mudlib handler' branches are guarded by "
                    "`current_error_context == mudlib_error_handler_context`; both handler applies record the entry context -/\n"
                    "def errorHandlerKeepsFlagInsideHandler : Bool := %s" % ("true" if len(guarded) == 2 and entries == 2 else "false"))
+        # (5d) … and the limit bits (ES_STACK_FULL / ES_MAX_EVAL_COST) of the error the handler runs for are recorded at both
+        #      entries and re-instated in the same two guarded places, i.e. only when the handler is abandoned
+        reinst = [c for c in guarded if re.match(r"in_mudlib_error_handler\s*=\s*0\s*;\s*set_error_state\s*\(handler_limit_state\)\s*;\s*\}", eh[c:])]
+        recorded = len(re.findall(r"handler_limit_state\s*=\s*limit_state\s*;\s*in_mudlib_error_handler\s*=\s*1\s*;", eh))
+        after = len(re.findall(r"mudlib_error_handler\s*\(err,\s*[01]\)\s*;\s*(?:in_error\s*=\s*1\s*;\s*)?in_mudlib_error_handler\s*=\s*0\s*;\s*set_error_state\s*\(limit_state\)", eh))
+        out.append("/-- error_handler: the limit bits are recorded before both handler applies, set again after a handler that returned, and "
+                   "re-instated for an error raised inside the handler only where the flag is cleared (handler abandoned) -/\n"
+                   "def errorHandlerKeepsLimitState : Bool := %s" % ("true" if len(reinst) == 2 and recorded == 2 and after == 2 else "false"))
         # (6) backend(): one context for the whole loop; recovery = restore_context only; pop_context after the loop
         be = body("src/backend.c", "backend")
         i_save, i_set, i_loop, i_pop = be.find("save_context (&econ)"), be.find("if (setjmp (econ.context))"), be.find("while (1)"), be.find("pop_context (&econ)")
